@@ -22,6 +22,7 @@ VariantsOf(t) ==
   CASE t = "jar" -> {"plain", "nested-metainf"}          \* payload files under META-INF/<dir>/ named like signature files
     [] t = "pe-dll" -> {"plain", "overlay1", "overlay3", "overlay5", "overlay8"}   \* trailing data, file length not 8-aligned
     [] t = "pgp-inline" -> {"len191", "len192", "len8383", "len8384", "len8385"}    \* literal packet length encoding boundaries
+    [] t \in {"ps1", "ps1xml", "mof"} -> {"plain", "utf16le"}      \* PowerShell-family files are commonly UTF-16-LE with a byte-order mark
     [] t = "pgp-clearsign" -> {"plain", "longline", "no-final-newline", "dash-lines", "crlf", "trailing-space"}   \* text shapes the cleartext framework treats specially
     [] OTHER -> {"plain"}
 
